@@ -22,7 +22,9 @@ def load_prop(pid):
 # ----------------------------------------------------------------------------- worker side
 # receiver stubs of the K kernels (stand-ins for str subclasses / records that cannot carry symbolic content): code that asks
 # a stub for something the real object has and the stub lacks is outside the harness, not a violation
-STUB_CLASSES = ("Rec", "Stub", "Loc", "TD", "Tok", "WStr")
+STUB_CLASSES = ("Rec", "Stub", "Loc", "TD", "Tok", "WStr",
+                # C16: recorder terms, recorded XML tree / generator, module stand-ins, result record, stream
+                "RecTerm", "RecURI", "RecLit", "RecBNode", "RecGen", "El", "_EtreeShim", "_JsonShim", "_Res", "_Stream", "_RecLit", "_RdflibShim")
 
 
 class HarnessLimit(Exception):
